@@ -188,42 +188,59 @@ FeeRefused(A, fs) == \/ ~FeesValid(fs)
                      \/ \E i \in DOMAIN fs : FeeHuge(fs[i])
                      \/ FeeTotal(A, fs) >= A
 
-\* pay the positive fees in order; fails at the first restricted send
-RECURSIVE PayFees(_, _, _, _, _)
-PayFees(s, d, A, fs, i) ==
-  IF i > Len(fs) THEN [ok |-> TRUE, st |-> s]
+\* Fault points (instrumented mode, C03): every fallible downstream call is a named point; an
+\* input carries a set F of armed points and a call fails when its point is armed.  `fired`
+\* reports which armed point was actually reached (at most one: the first failure aborts).
+FeePoint(k) == CASE k = 1 -> "feeSend1" [] k = 2 -> "feeSend2" [] k = 3 -> "feeSend3"
+                 [] k = 4 -> "feeSend4" [] OTHER -> "feeSend5"
+
+\* pay the positive fees in order; fails at the first armed or restricted send
+RECURSIVE PayFees(_, _, _, _, _, _, _)
+PayFees(s, d, A, fs, i, k, F) ==
+  IF i > Len(fs) THEN [ok |-> TRUE, st |-> s, fired |-> {}]
   ELSE LET n == FeeOf(A, fs[i])  to == RcptAcct(fs[i].to) IN
-       IF n <= 0 THEN PayFees(s, d, A, fs, i + 1)
-       ELSE IF Restricted(s, "orb", to, d) THEN [ok |-> FALSE, st |-> s]
-       ELSE PayFees(Move(s, "orb", to, d, n), d, A, fs, i + 1)
+       IF n <= 0 THEN PayFees(s, d, A, fs, i + 1, k, F)
+       ELSE IF FeePoint(k + 1) \in F THEN [ok |-> FALSE, st |-> s, fired |-> {FeePoint(k + 1)}]
+       ELSE IF Restricted(s, "orb", to, d) THEN [ok |-> FALSE, st |-> s, fired |-> {}]
+       ELSE PayFees(Move(s, "orb", to, d, n), d, A, fs, i + 1, k + 1, F)
 
 -----------------------------------------------------------------------------
 (* Actions: executor + controllers, applied in payload order on the running coin *)
 
 \* coin = [d |-> denom, n |-> amount]
-RunAction(s, coin, a) ==
-  LET id == ActOf(a.id) IN
-  IF id \in s.pAct THEN [ok |-> FALSE, why |-> "action-paused", st |-> s, coin |-> coin]
+RunAction(s, coin, a, F) ==
+  LET id == ActOf(a.id)
+      fail(w, fr) == [ok |-> FALSE, why |-> w, st |-> s, coin |-> coin, fired |-> fr]
+  IN
+  IF id \in s.pAct THEN fail("action-paused", {})
   ELSE IF id = "FEE" THEN
-     IF a.at # "FEE" THEN [ok |-> FALSE, why |-> "fee-attr-type", st |-> s, coin |-> coin]
-     ELSE IF FeeRefused(coin.n, a.fees) THEN [ok |-> FALSE, why |-> "fee-refused", st |-> s, coin |-> coin]
-     ELSE LET p == PayFees(s, coin.d, coin.n, a.fees, 1) IN
-          IF ~p.ok THEN [ok |-> FALSE, why |-> "fee-send", st |-> s, coin |-> coin]
-          ELSE [ok |-> TRUE, why |-> "", st |-> p.st,
+     IF a.at # "FEE" THEN fail("fee-attr-type", {})
+     ELSE IF FeeRefused(coin.n, a.fees) THEN fail("fee-refused", {})
+     ELSE LET p == PayFees(s, coin.d, coin.n, a.fees, 1, 0, F) IN
+          IF ~p.ok THEN fail("fee-send", p.fired)
+          ELSE IF "feeEmit" \in F THEN fail("fee-emit", {"feeEmit"})
+          ELSE [ok |-> TRUE, why |-> "", st |-> p.st, fired |-> {},
                 coin |-> [d |-> coin.d, n |-> coin.n - FeeTotal(coin.n, a.fees)]]
   ELSE \* SWAP
-     IF ~SwapRegistered THEN [ok |-> FALSE, why |-> "no-action-controller", st |-> s, coin |-> coin]
-     ELSE IF coin.n \div 2 <= 0 THEN [ok |-> FALSE, why |-> "swap-zero", st |-> s, coin |-> coin]
-     ELSE IF Restricted(s, "orb", "pool", coin.d) THEN [ok |-> FALSE, why |-> "swap-send", st |-> s, coin |-> coin]
-     ELSE [ok |-> TRUE, why |-> "",
+     IF ~SwapRegistered THEN fail("no-action-controller", {})
+     ELSE IF "swapSend" \in F THEN fail("swap-send", {"swapSend"})
+     ELSE IF coin.n \div 2 <= 0 THEN fail("swap-zero", {})
+     ELSE IF Restricted(s, "orb", "pool", coin.d) THEN fail("swap-send", {})
+     ELSE [ok |-> TRUE, why |-> "", fired |-> {},
            st |-> Move(Move(s, "orb", "pool", coin.d, coin.n), "pool", "orb", "uswap", coin.n \div 2),
            coin |-> [d |-> "uswap", n |-> coin.n \div 2]]
 
-RECURSIVE RunActions(_, _, _, _)
-RunActions(s, coin, acts, i) ==
-  IF i > Len(acts) THEN [ok |-> TRUE, why |-> "", st |-> s, coin |-> coin]
-  ELSE LET r == RunAction(s, coin, acts[i]) IN
-       IF ~r.ok THEN r ELSE RunActions(r.st, r.coin, acts, i + 1)
+\* trace = the coin each executed action saw and left, in execution order (C06)
+RECURSIVE RunActions(_, _, _, _, _, _)
+RunActions(s, coin, acts, i, F, trace) ==
+  IF i > Len(acts) THEN [ok |-> TRUE, why |-> "", st |-> s, coin |-> coin, fired |-> {}, trace |-> trace]
+  ELSE LET r == RunAction(s, coin, acts[i], F)
+           \* a refused action is recorded only when its controller was actually entered
+           t == Append(trace, [id |-> ActOf(acts[i].id), cin |-> coin, cout |-> r.coin, err |-> ~r.ok])
+       IN
+       IF ~r.ok THEN [ok |-> FALSE, why |-> r.why, st |-> s, coin |-> coin, fired |-> r.fired,
+                      trace |-> IF r.why \in {"action-paused", "no-action-controller"} THEN trace ELSE t]
+       ELSE RunActions(r.st, r.coin, acts, i + 1, F, t)
 
 -----------------------------------------------------------------------------
 (* Forwarding: forwarder component + the three controllers + bridge models *)
@@ -234,6 +251,10 @@ NoReq == <<>>
 BaseReq == [route |-> "", withCaller |-> FALSE, from |-> "orb", amt |-> 0, denom |-> "",
             dom |-> 0, mint |-> "NONE", caller |-> "NONE", tok |-> "NONE", rcp |-> "NONE",
             hook |-> "NONE", gas |-> 0, maxfee |-> 0, meta |-> "NONE", to |-> "NONE"]
+
+\* the deposit-replacement request: the message's fields, the orbiter account as owner (C05)
+ReplaceReq(in) == [BaseReq EXCEPT !.route = "CCTP_REPLACE", !.mint = in.fw.mint, !.caller = in.fw.caller, !.denom = "NONE",
+                                  !.tok = "orig-msg-" \o in.who, !.rcp = "att-" \o in.who]
 
 \* the request the payload asks for, given the post-action coin (C05)
 ExpectedReq(fw, coin) ==
@@ -248,9 +269,10 @@ ExpectedReq(fw, coin) ==
 
 ValidMeta(m) == m \in {"NONE", "0x", "0xAB", "0xabcd"}
 
-Forward(s, fw, coin) ==
+Forward(s, fw, coin, F) ==
   LET pid == PidOf(fw.pid)
-      fail(w) == [ok |-> FALSE, why |-> w, st |-> s, req |-> NoReq]
+      fail(w) == [ok |-> FALSE, why |-> w, st |-> s, req |-> NoReq, fired |-> {}]
+      fire(w, pt) == [ok |-> FALSE, why |-> w, st |-> s, req |-> NoReq, fired |-> {pt}]
   IN
   IF pid \in s.pProto THEN fail("protocol-paused")
   ELSE IF <<pid, CpOf(fw)>> \in s.pCC THEN fail("crosschain-paused")
@@ -260,30 +282,34 @@ Forward(s, fw, coin) ==
   ELSE IF fw.at # pid THEN fail("attr-type-mismatch")
   ELSE IF pid = "CCTP" THEN
      IF fw.dom = CctpNobleDomain \/ fw.mint = "NONE" THEN fail("cctp-attr-invalid")
+     ELSE IF "cctpBurn" \in F THEN fire("fault", "cctpBurn")
      ELSE IF fw.mint = "MINT_ZERO" THEN fail("cctp-zero-mint")
      ELSE IF fw.dom \notin CctpDomains THEN fail("cctp-unknown-domain")
      ELSE IF coin.d # MintingDenom THEN fail("cctp-denom")
      ELSE IF s.env.cctpPaused THEN fail("cctp-paused")
      ELSE IF coin.n > BurnLimit THEN fail("cctp-burn-limit")
      ELSE IF Restricted(s, "orb", "cctp", coin.d) THEN fail("cctp-send")
-     ELSE [ok |-> TRUE, why |-> "", req |-> <<ExpectedReq(fw, coin)>>,
+     ELSE [ok |-> TRUE, why |-> "", req |-> <<ExpectedReq(fw, coin)>>, fired |-> {},
            st |-> [s EXCEPT !.bal["orb"][coin.d] = @ - coin.n, !.supply[coin.d] = @ - coin.n]]
   ELSE IF pid = "HYP" THEN
      IF fw.tok \notin Bytes32 \/ fw.rcp \notin Bytes32 \/ fw.hook \notin Bytes32 \cup {"NONE"}
         \/ fw.dom \in HypNobleDomains \/ ~ValidMeta(fw.meta) THEN fail("hyp-attr-invalid")
+     ELSE IF "hypToken" \in F THEN fire("fault", "hypToken")
      ELSE IF fw.tok \notin HypTokens THEN fail("hyp-unknown-token")
      ELSE IF OriginDenom(fw.tok) # coin.d THEN fail("hyp-denom")
+     ELSE IF "hypTransfer" \in F THEN fire("fault", "hypTransfer")
      ELSE IF Restricted(s, "orb", "warp", coin.d) THEN fail("hyp-send")
      ELSE IF fw.dom \notin HypRouters THEN fail("hyp-no-router")
      ELSE IF fw.hook \notin KnownHooks THEN fail("hyp-unknown-hook")
-     ELSE [ok |-> TRUE, why |-> "", req |-> <<ExpectedReq(fw, coin)>>,
+     ELSE [ok |-> TRUE, why |-> "", req |-> <<ExpectedReq(fw, coin)>>, fired |-> {},
            st |-> Move(s, "orb", "warp", coin.d, coin.n)]
   ELSE \* INT
      IF ~ValidRcpt(fw.to) THEN fail("int-attr-invalid")
      ELSE IF RcptAcct(fw.to) = "orb" THEN fail("int-self")       \* the coin would stay on the orbiter account (C01)
+     ELSE IF "intSend" \in F THEN fire("fault", "intSend")
      ELSE IF RcptAcct(fw.to) \in BankBlocked THEN fail("int-blocked")
      ELSE IF Restricted(s, "orb", RcptAcct(fw.to), coin.d) THEN fail("int-send")
-     ELSE [ok |-> TRUE, why |-> "", req |-> <<ExpectedReq(fw, coin)>>,
+     ELSE [ok |-> TRUE, why |-> "", req |-> <<ExpectedReq(fw, coin)>>, fired |-> {},
            st |-> Move(s, "orb", RcptAcct(fw.to), coin.d, coin.n)]
 
 -----------------------------------------------------------------------------
@@ -325,7 +351,8 @@ IsICS20(in) == in.dn # "RAWDATA"
 \* The design: every ICS-20 packet whose receiver DECODES to the module account is an orbiter packet.
 ForOrbiter(in) == IsICS20(in) /\ DecodesToOrb(in.rcv)
 
-Res(ok, why, s, req) == [ok |-> ok, why |-> why, st |-> s, req |-> req]
+Res(ok, why, s, req) == [ok |-> ok, why |-> why, st |-> s, req |-> req, fired |-> {}, trace |-> <<>>]
+ResF(ok, why, s, req, fired, trace) == [ok |-> ok, why |-> why, st |-> s, req |-> req, fired |-> fired, trace |-> trace]
 
 \* blockibc: the FTF's own IBC middleware, outermost in simapp's stack
 BlockIBCRefuses(s, in) ==
@@ -354,7 +381,9 @@ PlainICS20(s, in) ==
 
 RecvOrbiter(s0, in) ==
   LET d == in.base
+      F == ToSet(in.faults)
       fail(w) == Res(FALSE, w, s0, NoReq)
+      fire(pt) == ResF(FALSE, "fault", s0, NoReq, {pt}, <<>>)
   IN
   IF ~ParseOK(in) THEN fail("parse")
   ELSE IF ~PayloadValid(in) THEN fail("payload-invalid")
@@ -362,26 +391,30 @@ RecvOrbiter(s0, in) ==
   ELSE IF in.dn # "RET" THEN fail("denom-not-returning-native")
   ELSE IF ~ValidBaseDenom(d) \/ (AmtKind(in) = "num" /\ in.amt < 1) THEN fail("transfer-attributes")
   ELSE IF in.fw.pt > (IF s0.hasParams THEN s0.maxPT ELSE 0) THEN fail("passthrough-too-long")
-  ELSE IF s0.bal["orb"][d] > 0 /\ Restricted(s0, "orb", "dust", d) THEN fail("sweep")
+  ELSE IF d \in Denom /\ s0.bal["orb"][d] > 0 /\ "sweep" \in F THEN fire("sweep")
+  ELSE IF d \in Denom /\ s0.bal["orb"][d] > 0 /\ Restricted(s0, "orb", "dust", d) THEN fail("sweep")
+  ELSE IF "ics20" \in F THEN fire("ics20")
   ELSE
-  LET s1 == Move(s0, "orb", "dust", d, s0.bal["orb"][d])        \* clearOrbiterBalance
+  LET s1 == IF d \in Denom THEN Move(s0, "orb", "dust", d, s0.bal["orb"][d]) ELSE s0     \* clearOrbiterBalance
       r2 == PlainICS20(s1, in)
   IN
   IF ~r2.ok THEN fail(r2.why)
   ELSE
-  LET r3 == RunActions(r2.st, [d |-> d, n |-> in.amt], in.acts, 1) IN
-  IF ~r3.ok THEN fail(r3.why)
+  LET r3 == RunActions(r2.st, [d |-> d, n |-> in.amt], in.acts, 1, F, <<>>) IN
+  IF ~r3.ok THEN ResF(FALSE, r3.why, s0, NoReq, r3.fired, r3.trace)
   ELSE
-  LET r4 == Forward(r3.st, in.fw, r3.coin) IN
-  IF ~r4.ok THEN fail(r4.why)
-  ELSE Res(TRUE, "",
-           AddTransfer(r4.st, "IBC", SrcCp(in.chan), PidOf(in.fw.pid), CpOf(in.fw),
-                       [d |-> d, n |-> in.amt], r3.coin),
-           r4.req)
+  LET r4 == Forward(r3.st, in.fw, r3.coin, F) IN
+  IF ~r4.ok THEN ResF(FALSE, r4.why, s0, NoReq, r4.fired, r3.trace)
+  ELSE IF "processedEmit" \in F THEN ResF(FALSE, "fault", s0, NoReq, {"processedEmit"}, r3.trace)
+  ELSE ResF(TRUE, "",
+            AddTransfer(r4.st, "IBC", SrcCp(in.chan), PidOf(in.fw.pid), CpOf(in.fw),
+                        [d |-> d, n |-> in.amt], r3.coin),
+            r4.req, {}, r3.trace)
 
 Recv(s, in) ==
   IF BlockIBCRefuses(s, in) THEN Res(FALSE, "blockibc", s, NoReq)
   ELSE IF ForOrbiter(in) THEN RecvOrbiter(s, in)
+  ELSE IF "ics20" \in ToSet(in.faults) THEN ResF(FALSE, "fault", s, NoReq, {"ics20"}, <<>>)
   ELSE PlainICS20(s, in)
 
 -----------------------------------------------------------------------------
@@ -404,7 +437,7 @@ UnpauseBatch(set, pid, cps, i) ==
   ELSE IF <<pid, cps[i]>> \notin set THEN [ok |-> FALSE, set |-> set]
   ELSE UnpauseBatch(set \ {<<pid, cps[i]>>}, pid, cps, i + 1)
 
-Admin(s, in) ==
+AdminCore(s, in) ==
   LET fail(w) == Res(FALSE, w, s, NoReq) IN
   IF ~IsAuthority(in.signer) THEN fail("unauthorized")
   ELSE CASE in.rpc = "PauseProtocol" ->
@@ -447,9 +480,15 @@ Admin(s, in) ==
          \* reaches CCTP with exactly the message's fields; the test-bed has no attested message,
          \* so CCTP itself refuses it
          Res(FALSE, "cctp-refuses-replace", s,
-             <<[BaseReq EXCEPT !.route = "CCTP_REPLACE", !.mint = in.fw.mint, !.caller = in.fw.caller,
-                               !.denom = "NONE"]>>)
+             <<ReplaceReq(in)>>)
     [] OTHER -> fail("unknown-rpc")
+
+\* every pause message emits an event after the state change; a failing emit fails the message
+Admin(s, in) ==
+  LET r == AdminCore(s, in) IN
+  IF r.ok /\ in.rpc \in PauseRpcs \cup ActionRpcs /\ "adminEmit" \in ToSet(in.faults)
+  THEN ResF(FALSE, "fault", s, NoReq, {"adminEmit"}, <<>>)
+  ELSE r
 
 -----------------------------------------------------------------------------
 (* Deposits, environment, re-import                                        *)
@@ -517,18 +556,21 @@ QueryView(s) ==
 ModelStep(pre, in) ==
   LET r == Apply(pre, in)
       isRecv == in.t = "recv"
+      nof == in.faults = <<>>          \* control runs are only compared with fault-free main runs
       c(run, rr, p) == [run |-> run, ok |-> rr.ok, out |-> Outcome(p, rr)]
+      \* control runs are fault-free
   IN [ pre |-> pre, in |-> in, post |-> r.st, ok |-> r.ok, panic |-> FALSE, why |-> r.why,
        req |-> r.req,
-       ctl |-> [ nopause |-> c(isRecv, Apply(NoPause(pre), in), NoPause(pre)),
-                 clean   |-> c(isRecv, Apply(Clean(pre), in), Clean(pre)),
-                 noacts  |-> c(isRecv /\ in.mk = "PAYLOAD" /\ Len(in.acts) > 0, Apply(pre, NoActs(in)), pre),
-                 nopt    |-> c(isRecv /\ in.mk = "PAYLOAD" /\ in.fw.pt > 0, Apply(pre, NoPt(in)), pre) ],
+       ctl |-> [ nopause |-> c(isRecv /\ nof, Apply(NoPause(pre), in), NoPause(pre)),
+                 clean   |-> c(isRecv /\ nof, Apply(Clean(pre), in), Clean(pre)),
+                 noacts  |-> c(isRecv /\ nof /\ in.mk = "PAYLOAD" /\ Len(in.acts) > 0, Apply(pre, NoActs(in)), pre),
+                 nopt    |-> c(isRecv /\ nof /\ in.mk = "PAYLOAD" /\ in.fw.pt > 0, Apply(pre, NoPt(in)), pre) ],
        out |-> Outcome(pre, r),
        orbUp |-> \E d \in Denom : r.st.bal["orb"][d] > pre.bal["orb"][d],
        othersSame |-> TRUE,
        fullReq |-> TRUE,
-       fired |-> {},
+       fired |-> r.fired,
+       hasTrace |-> TRUE, perAction |-> r.trace,
        hasQ |-> in.t = "admin",
        q |-> QueryView(r.st),
        x |-> [exportOk |-> TRUE, validateOk |-> TRUE, initOk |-> TRUE, sameExport |-> TRUE, fullOk |-> TRUE] ]
